@@ -366,15 +366,48 @@ def r7(db, rep, vinfo):
     b = db.hir.get(EXPR + "::replace_scalar")
     if b is not None:
         rep.analysed(b["def"])
+        # on the MIR of the replacement closure: every Some(..) it returns sits on the true side of an equality test between
+        # the visited node's scalar and the captured scalar (if-let chain, guarded match arm, ... all lower to this)
+        from db import Cfg
+        from mirterm import Terms, subterms as _sub
         ok = False
-        for x in walk(b["body"]):
-            if x.get("k") == "If":
-                c = x["c"]
-                if c.get("k") == "Binary" and c.get("op") == "Eq":
-                    then_some = any(callee(y) == "std::prelude::v1::Some" for y in walk(x["then"]))
-                    else_some = any(callee(y) == "std::prelude::v1::Some" for y in walk(x.get("else", {})))
-                    if then_some and not else_some:
-                        ok = True
+        for cdef in db.closures_of(EXPR + "::replace_scalar"):
+            cb = db.mir.get(cdef)
+            if cb is None:
+                continue
+            ctm = Terms(cb, db)
+            ccfg = Cfg(cb)
+            somes = [i for i, bb in enumerate(cb["blocks"]) for s_ in bb["s"]
+                     if str(s_.get("rv", {}).get("variant", "")).endswith("::Some") and s_.get("d") == [0]]
+            tests = []
+            for j, bb in enumerate(cb["blocks"]):
+                t = bb["t"]
+                if t["k"] != "SwitchInt":
+                    continue
+                d = ctm.operand(t["discr"])
+                # the whole scalars are compared (PartialEq on Scalar), not a projection of them such as the width
+                is_eq = d[0] == "call" and last_seg(d[1]) == "eq" and len(d[2]) == 2 and "Scalar" in str(d[3] if len(d) > 3 else "")
+
+                def plain(x, kind):
+                    while isinstance(x, tuple) and x and x[0] == "field":
+                        x = x[1]
+                    return isinstance(x, tuple) and bool(x) and ((kind == "node" and x[0] == "variant" and x[2] == "Scalar") or
+                                                                 (kind == "captured" and x[0] == "upvar"))
+                if is_eq and ((plain(d[2][0], "node") and plain(d[2][1], "captured")) or (plain(d[2][1], "node") and plain(d[2][0], "captured"))):
+                    false_t = [tg for v_, tg in t["targets"] if v_ == 0] or [None]
+                    tests.append((j, false_t[0] if false_t[0] is not None else None, t))
+            if not somes:
+                continue
+            ok = True
+            for sb_ in somes:
+                guarded = False
+                for j, ft, t in tests:
+                    if ft is None:
+                        # `switch [1 -> true side] otherwise false side`
+                        ft = t["otherwise"]
+                    if ccfg.dominates(j, sb_) and sb_ not in ccfg.reachable(ft, avoid=[j]):
+                        guarded = True
+                ok = ok and guarded
         r.decide(ok, "replace_scalar|guard", db.where(b), "replacement must be produced only for the equal scalar")
 
 
